@@ -2,7 +2,7 @@
    Own legs: default-initialised objects (C02/Model.v).  The component theorems are collected in
    Properties_containers.v, Properties_strings.v, Properties_algorithms.v, Properties_arith.v, Properties_wrappers.v. *)
 From Tetl Require Import Lib.Base C02.Model.
-From Tetl Require C08.Model C08.Core C02.ModelFp C02.ProofsFp C02.ModelFf C02.ProofsFf.
+From Tetl Require C08.Model C08.Spec C08.Core C08.ProofsPtr C08.Properties C02.ModelFp C02.ProofsFp C02.ModelFf C02.ProofsFf.
 Local Open Scope Z_scope.
 
 (* every modelled object kind except inplace_vector reads only initialised members after default-initialisation
@@ -10,16 +10,26 @@ Local Open Scope Z_scope.
    both layouts, views, sets, stack, optional / variant / expected, bitset, inplace_function, pair, tuple, extents,
    mdspan, duration); the 0xFF-poisoned observation of the harness is then that state *)
 Theorem C02_default_init_reads_initialised : forall o,
-  o <> InplaceVectorTrivial -> o <> InplaceVectorNonTrivial ->
+  o <> InplaceVectorTrivial -> o <> InplaceVectorNonTrivial -> (forall c, o <> InplaceVectorCap c) ->
   default_obs o = Ok (empty_state o) /\ default_obs_poisoned o = empty_state o /\ default_size o = Ok (hd 0 (empty_state o)).
-Proof. intros o H1 H2. destruct o; try (repeat split; reflexivity); contradiction. Qed.
+Proof. intros o H1 H2 H3. destruct o; try (repeat split; reflexivity); try contradiction. exfalso. exact (H3 capacity eq_refl). Qed.
 Print Assumptions C02_default_init_reads_initialised.
 
 (* recorded finding: the size member of inplace_vector has no initialiser (a repair would make the default
    constructor non-trivial, which tests/inplace_vector pins through etl::is_trivially_copy_constructible) *)
 Theorem C02_inplace_vector_default_init_refuted :
-  exists o, default_obs o = UB UninitRead /\ default_size o = UB UninitRead /\ default_obs_poisoned o <> empty_state o.
-Proof. exists InplaceVectorTrivial. repeat split; try reflexivity. vm_compute. discriminate. Qed.
+  (exists o, default_obs o = UB UninitRead /\ default_size o = UB UninitRead /\ default_obs_poisoned o <> empty_state o) /\
+  (* at EVERY capacity; over 0xFF-filled storage the size reads as the largest value of smallest_size_t<Capacity> *)
+  (forall c, default_obs (InplaceVectorCap c) = UB UninitRead /\
+             default_obs_poisoned (InplaceVectorCap c) = [2 ^ C01.Model.size_bits c - 1; 0]).
+Proof.
+  split; [exists InplaceVectorTrivial; repeat split; try reflexivity; vm_compute; discriminate|].
+  intros c. split; [reflexivity|]. unfold default_obs_poisoned. cbn [members shape_of map read_poisoned present].
+  assert (H : 2 ^ C01.Model.size_bits c - 1 =? 0 = false).
+  { unfold C01.Model.size_bits. destruct (c <? 255); [reflexivity|]. destruct (c <? 65535); [reflexivity|].
+    destruct (c <? 4294967295); reflexivity. }
+  rewrite H. reflexivity.
+Qed.
 Print Assumptions C02_inplace_vector_default_init_refuted.
 
 (* to_floating_point (on which strtod / strtof / strtold / atof / stof / stod / stold are built), as repaired by
@@ -32,6 +42,18 @@ Theorem C02_to_floating_point_reads_inside : forall v, C08.Core.view_ok v ->
   0 <= snd (C02.ModelFp.tfp_spec (C08.Core.vchars v)) <= C08.Model.vlen v.
 Proof. intros v H. split; [exact (C02.ProofsFp.tfp_scan_correct v H)|exact (C02.ProofsFp.tfp_end_in_view v H)]. Qed.
 Print Assumptions C02_to_floating_point_reads_inside.
+
+(* strtod / strtof / strtold / atof (char const* str): the view is built by Traits::length, which stops at the
+   terminator (C08), and the scan then stays inside it: for EVERY array holding a null character nothing behind the
+   terminator is read *)
+Theorem C02_strtod_reads_inside : forall a, C08.ProofsPtr.cstr_ok a ->
+  exists n, C08.Model.cstr_view a = Ok n /\ C08.Core.view_ok n /\
+            C02.ModelFp.tfp_scan n = Ok (C02.ModelFp.tfp_spec (C08.Spec.cstr_s (C08.Core.vchars a))).
+Proof.
+  intros a H. destruct (C08.Properties.C08_cstr_view a H) as (n & E & V & C). exists n. split; [exact E|]. split; [exact V|].
+  rewrite <- C. exact (C02.ProofsFp.tfp_scan_correct n V).
+Qed.
+Print Assumptions C02_strtod_reads_inside.
 
 (* the loop as it was before the fix (bounded by a null character only) reads outside the view: "12" inside "1234" *)
 Theorem C02_to_floating_point_prefix_refuted :
